@@ -148,6 +148,7 @@ class Interp:
         self.functions_run = set()
         self.models_used = set()
         self.unsupported = {}
+        self.domains = {}
         self._bind_models()
         from . import lazy as _lazy
         self.lazy = _lazy
@@ -1008,6 +1009,10 @@ class Interp:
         if ktag in ("PtrToPtr", "FnPtrToPtr"):
             if isinstance(v, Ptr):
                 dp = self.types[dty.elem] if dty.kind in ("rawptr", "ref") else None
+                sp = self.types[sty.elem] if sty.kind in ("rawptr", "ref") else None
+                if dp is not None and sp is not None and sp.kind in ("slice", "array") and dp.kind not in ("slice", "str", "dyn", "array"):
+                    # thin pointer to the first element of a sequence
+                    return Ptr(v.cell, v.path + (0,), None)
                 if dp is not None and dp.kind not in ("slice", "str", "dyn") and v.meta is not None:
                     return Ptr(v.cell, v.path, None)
             return v
@@ -1346,8 +1351,9 @@ class Interp:
         if isinstance(d, bool):
             d = int(d)
         if isinstance(d, int):
-            dty = self.types[self.operand_ty(fr.inst, val["discr"])]
-            du = d & ((1 << dty.bits) - 1) if dty.bits else d
+            dtid = self.operand_ty(fr.inst, val["discr"])
+            bits = self.types[dtid].bits if dtid is not None else 8
+            du = d & ((1 << bits) - 1) if bits else d
             for bv, bb in branches:
                 if bv == du:
                     fr.bb = bb
@@ -1414,6 +1420,8 @@ class Interp:
             fr.si = 0
             return None
         allowed = self.lazy.allowed_variants(self, st, cur)
+        if not cur.excl:
+            self.domains[cur.name + "#d"] = sorted(allowed)
         dec = st.decisions.get(cur.name + "#d")
         alts = []
         named = set()
@@ -1585,6 +1593,7 @@ class Interp:
                 return None
             return self.exec_terminator(st, fr, blk["terminator"])
         except NeedFork as nf:
+            self.domains[nf.name] = list(nf.choices)
             out = []
             for ch in nf.choices:
                 s2 = st.fork()
@@ -1617,6 +1626,15 @@ class Interp:
                     break
                 try:
                     succ = self.step(s)
+                except (KeyError, IndexError, AttributeError, TypeError, ValueError, z3.Z3Exception) as ex:
+                    import traceback
+                    tb = traceback.format_exc().strip().splitlines()
+                    s.status = "unsupported"
+                    fr = s.frames[-1] if s.frames else None
+                    s.info = "internal %s: %s @ %s [in %s bb%d]" % (type(ex).__name__, ex, tb[-3].strip() if len(tb) >= 3 else "", fr.inst.name if fr else "?", fr.bb if fr else -1)
+                    self.unsupported[s.info[:200]] = self.unsupported.get(s.info[:200], 0) + 1
+                    self.record_leaf(s)
+                    break
                 except Unsupported as u:
                     s.status = "unsupported"
                     fr = s.frames[-1] if s.frames else None
